@@ -9,21 +9,24 @@ import "strings"
 // back inconclusive are dropped. The evidence states the configurations actually run.
 var thoroughAsQuick = []string{
 	"C39", "C93", // full-ASCII n = 2 is 128^2 paths: > 15 min per instance
-	"C128-sym",  // n = 3 with check character: VC time-outs
-	"PURE-",     // n + 1 symbolic bytes: > 20 min for the family
+	"C128-sym", // n = 3 with check character: VC time-outs
+	"PURE-",    // n + 1 symbolic bytes: > 20 min for the family
+	"GF-mul-",  // every second operand of GF(1024) / GF(4096): > 10 min for the family
+	"GF-div",   // likewise
 }
 
 var thoroughDrop = map[string]bool{
-	"C128-idx[k=4,prefix=3]": true, // VC time-out
-	"BL-add[L=127,k=1]":      true, // symbolic index over 128 words: bounds VC time-out
-	"BL-add[L=127,k=2]":      true,
-	"BL-add[L=127,k=3]":      true,
-	"BL-add[L=128,k=1]":      true,
-	"BL-add[L=128,k=2]":      true,
-	"BL-add[L=128,k=3]":      true,
-	"BL-add[L=129,k=1]":      true,
-	"BL-add[L=129,k=2]":      true,
-	"BL-add[L=129,k=3]":      true,
+	"C128-idx[k=4,prefix=3]":          true, // VC time-out
+	"AZ-F[class=1,n=4,pct=10,req=23]": true, // 23-layer symbol with real field arithmetic in the oracle: step limit
+	"BL-add[L=127,k=1]":               true, // symbolic index over 128 words: bounds VC time-out
+	"BL-add[L=127,k=2]":               true,
+	"BL-add[L=127,k=3]":               true,
+	"BL-add[L=128,k=1]":               true,
+	"BL-add[L=128,k=2]":               true,
+	"BL-add[L=128,k=3]":               true,
+	"BL-add[L=129,k=1]":               true,
+	"BL-add[L=129,k=2]":               true,
+	"BL-add[L=129,k=3]":               true,
 }
 
 // EffectiveTier is the tier whose configurations an obligation family runs in the given tier.
